@@ -34,7 +34,7 @@ fn map_list(
 
     for value in list.into_iter() {
         bindings.bind_param(ident_name, value.clone());
-        let interp = Interpreter::new(&cel, &bindings);
+        let interp = ctx.child(&cel, &bindings);
 
         if bytecode.len() == 2 {
             match interp.run_raw(bytecode[1], true) {
@@ -71,7 +71,7 @@ fn map_map(
     for key in map.into_keys() {
         let value: CelValue = key.into();
         bindings.bind_param(ident_name, value.clone());
-        let interp = Interpreter::new(&cel, &bindings);
+        let interp = ctx.child(&cel, &bindings);
 
         if bytecode.len() == 2 {
             match interp.run_raw(bytecode[1], true) {
